@@ -120,7 +120,7 @@ func (g *c12Gen) action() {
 	x := g.names[g.pick("x", len(g.names))]
 	y := g.names[g.pick("y", len(g.names))]
 	ox := g.vars[x]
-	switch g.pick("action", 12) {
+	switch g.pick("action", 13) {
 	case 0:
 		o, txt := g.newObj(g.pick("len", 7), true)
 		g.vars[x] = o
@@ -176,6 +176,21 @@ func (g *c12Gen) action() {
 		} else {
 			g.w("%s(%s, \"%s\");", bn.BDelKey, x, k)
 		}
+	case 11:
+		// a fresh object from a constant literal (with nested containers) evaluated again and again
+		g.nextID += 2
+		inner := &gObj{m: map[string]gVal{"n2": {n: 2}}, id: g.nextID - 1}
+		g.vars[x] = &gObj{m: map[string]gVal{"k": {n: 1}, "v": {sub: inner}, "name": {n: -1}}, id: g.nextID}
+		g.w("%s = mko();", x)
+		if g.pick("mutateNested", 2) == 0 {
+			v := g.u()
+			inner.m["n2"] = gVal{n: v}
+			g.w("%s.v.n2 = %d;", x, v)
+		} else {
+			delete(inner.m, "n2")
+			g.w("%s(%s.v, \"n2\");", bn.BDelKey, x)
+		}
+		g.w("%s mko();", bn.KwPrint)
 	case 9:
 		if g.pick("boxOrList", 2) == 0 {
 			// keep an object in an array element and reach it through the element
@@ -211,6 +226,7 @@ func (g *c12Gen) program(nActions, fault int) string {
 	g.w("%s setk(o, v) { o.k = v; }", bn.KwFun)
 	g.w("%s f() { }", bn.KwFun)
 	g.w("%s box = [nil];", bn.KwVar)
+	g.w("%s mko() { %s {k: 1, v: {n2: 2}, name: [3, 4]}; }", bn.KwFun, bn.KwReturn)
 	op, tp := g.newObj(1+g.pick("len", 4), false)
 	oq, tq := g.newObj(g.pick("len", 4), false)
 	g.vars["P"], g.vars["Q"], g.vars["R"] = op, oq, op
